@@ -83,6 +83,8 @@ def gen_instance(rng, profile="mixed", nj=None, nm=None):
     """
     if profile == "mixed":
         profile = rng.choice(["classic", "transport", "transport", "buffers", "buffers", "full", "full"])
+    if profile == "race":
+        return gen_race(rng)
     nj = nj or rng.randint(2, 4)
     nm = nm or rng.randint(2, 3)
     feats = {"profile": profile, "nj": nj, "nm": nm}
@@ -159,8 +161,42 @@ def gen_instance(rng, profile="mixed", nj=None, nm=None):
     if outs:
         ic["outages"] = outs
     feats["noutages"] = len(outs)
+    if profile == "stoch" and rng.random() < 0.7:
+        # stochastic processing times (the table entry is the base)
+        inst["time_behavior"] = rng.choice([{"type": "uni", "offset": rng.randint(1, 9)}, {"type": "poisson"},
+                                            {"type": "gaussian", "std": rng.choice([1, 2, 4])},
+                                            {"type": "uni", "offset": rng.randint(1, 3)}])
+        feats["stoch_durations"] = inst["time_behavior"]["type"]
     if profile == "stoch" and rng.random() < 0.6:
         lg["time_behavior"] = {"type": rng.choice(["poisson", "uni"]), "offset": 1, "mean": 3}
+    return d, feats
+
+
+def gen_race(rng):
+    """Small shops built for coincidences: few machines, several AGVs, ordered machine buffers, all
+    durations and travel times from a tiny range, so that arrivals, completions and pickups fall into
+    the same instant (stale pickups, time dependencies, simultaneous releases)."""
+    nj = rng.randint(3, 4)
+    nm = rng.randint(1, 2)
+    routes = []
+    for _ in range(nj):
+        ms = list(range(nm))
+        rng.shuffle(ms)
+        if rng.random() < 0.3:
+            ms = ms + [rng.randrange(nm)]
+        routes.append([(mm, rng.randint(1, 4)) for mm in ms[:nm]])
+    names = ["m-%d" % k for k in range(nm)] + ["in-buf", "out-buf"]
+    c = rng.randint(1, 3)
+    n = len(names)
+    mat = [[(0 if a == b else (c if rng.random() < 0.8 else rng.randint(0, 3))) for b in range(n)] for a in range(n)]
+    nagv = rng.randint(2, 3)
+    ic = {"description": "race", "instance": {"description": "gen", "specification": job_spec_text(routes)},
+          "logistics": {"type": "agv", "amount": nagv, "specification": matrix_text(names, mat)},
+          "machines": {"prebuffer": [{"type": rng.choice(["fifo", "flex_buffer", "lifo"]), "capacity": nj + 1}],
+                       "postbuffer": [{"type": rng.choice(["lifo", "lifo", "fifo"]), "capacity": nj + 1}]}}
+    d = {"title": "InstanceConfig", "instance_config": ic}
+    feats = {"profile": "race", "nj": nj, "nm": nm, "routes": routes, "travel": "const", "nagv": nagv,
+             "start_time": 0, "roomy": True, "buffer_mode": "global"}
     return d, feats
 
 
